@@ -10,6 +10,7 @@ The connection part (props/c06_socket.py) runs histories of real TCP connections
 from vlib import common as C
 from props import pool_common as P
 
+DRIVERS = ['Pool']   # model driver files this check runs: scopes translator failures to the tables they (and the proofs) import
 TRUSTED = ['cfg(rws_verif) hooks in src/thread_pool/mod.rs (add-only)',
            'harness callback ordering (see harness/src/ops/pool.rs)',
            'std::sync::{Mutex, mpsc}, std::panic::catch_unwind semantics as modelled']
